@@ -379,6 +379,9 @@ class Interp:
         for name in spec["modifies"]:
             env[name] = spec["havoc"](name, env) if "havoc" in spec else havoc_like(env[name])
         i = T.fresh_int("it")
+        # iteration counts of the enclosing invariant-cut loops (outermost first), for invariants of nested loops whose
+        # outer loop has no index variable (`for f in list_of_matrices`)
+        env["__loop_indices__"] = tuple(env.get("__loop_indices__", ())) + (i,)
         if ctx.choice(f"loop@{s.lineno}"):
             if kind == "for":
                 ctx.assume(T.And(T.le(0, i), T.lt(i, n)))
@@ -399,6 +402,7 @@ class Interp:
                 return
             ctx.oblige(inv(env, T.add(i, 1)), f"loop@{s.lineno}:preserve", kind="invariant", assume_after=False)
             raise PathEnd(f"loop@{s.lineno} body")
+        env["__loop_indices__"] = tuple(env.get("__loop_indices__", ()))[:-1]
         if kind == "for":
             ctx.assume(inv(env, n))
         else:
